@@ -4,7 +4,8 @@
 (* event carrying the configuration fields and the observables.  The event is accepted iff the property's     *)
 (* policy TlsPolicy!AbsAllows admits the observed outcome for that configuration:                              *)
 (*   admitted == announced \/ appOut \/ appIn   (announced as connected, or application data went either way) *)
-(*   clear    == clearOut                        (the relay read the engine application's bytes in clear text) *)
+(*   clear    == clearOut \/ engineFirst = "clear"  (the relay read the engine application's marker in clear text,  *)
+(*               or the first byte the engine put on some connection was not a TLS record at all)            *)
 (*   ver      == peerVer                         (version of a handshake the OpenSSL peer completed, 0 = none) *)
 (* Nothing else is demanded: in particular a refused session, a failed start, or a session the model expected *)
 (* to succeed but that did not, are all accepted (model drift is counted by checks/C07.py, never an alarm).   *)
@@ -27,13 +28,17 @@ vars == <<l, seen>>
 P == INSTANCE TlsPolicy WITH Dev_NoHostnameCheck_Transport <- FALSE, Dev_NoHostnameCheck_HttpClient <- FALSE,
                              Dev_PlaintextFallbackWhenTlsNotEnabled <- FALSE,
                              Dev_ClientCertRequestedNotRequired <- FALSE, Dev_NoVersionFloor <- FALSE,
+                             Dev_HttpSchemeCaseDowngrade <- FALSE, Dev_VerifyClockFrozenAtStart <- FALSE,
                              c <- 0, pc <- 0, out <- 0
 
 Cfg == [role |-> Ev.role, via |-> Ev.via, tlsRequested |-> Ev.tlsRequested, tlsEnabled |-> Ev.tlsEnabled,
         peerKind |-> Ev.peerKind, verify |-> Ev.verify, requireClientCert |-> Ev.requireClientCert,
         anchor |-> Ev.anchor, serverCert |-> Ev.serverCert, clientCert |-> Ev.clientCert, byName |-> Ev.byName,
-        clientMax |-> Ev.clientMax, serverMax |-> Ev.serverMax, engineMin |-> Ev.engineMin, lax |-> Ev.lax]
-Obs == [admitted |-> Ev.announced \/ Ev.appOut \/ Ev.appIn, clear |-> Ev.clearOut, ver |-> Ev.peerVer]
+        clientMax |-> Ev.clientMax, serverMax |-> Ev.serverMax, engineMin |-> Ev.engineMin, lax |-> Ev.lax,
+        scheme |-> Ev.scheme, port |-> Ev.port, certLife |-> Ev.certLife, when |-> Ev.when,
+        transport |-> Ev.transport]
+Obs == [admitted |-> Ev.announced \/ Ev.appOut \/ Ev.appIn, clear |-> Ev.clearOut \/ Ev.engineFirst = "clear",
+        ver |-> Ev.peerVer]
 
 \* F-07a: admitted although the certificate was issued for another name; every other clause holds
 DevNoHostname(x, o) ==
